@@ -341,7 +341,6 @@ def TraceOk (bank : List Bytes) (w : Wave.Bank) (f : Bytes × Bytes) (kv : Bytes
 
 theorem runOps_trace (files : List (Bytes × Bytes)) (l0 l : Linker) (rs0 : List Alloc.Win)
     (inv0 : Wave.Inv l0.wave rs0) (hnd0 : l0.dataBank.Nodup)
-    (hD11 : ∀ f ∈ files, FileStart0 f.2)
     (h : runOps (files.map fun f => Op.add f.1 f.2) l0 = .ok l) :
     ∃ (tr : List (Bytes × SeqData)) (rs : List Alloc.Win), Wave.Inv l.wave rs ∧ l.dataBank.Nodup ∧
       Ext l0.dataBank l0.wave rs0 l.dataBank l.wave rs ∧
@@ -365,14 +364,12 @@ theorem runOps_trace (files : List (Bytes × Bytes)) (l0 l : Linker) (rs0 : List
         rw [ha] at h
         simp only at h
         obtain ⟨rd, a, hrd, hfold, hl1⟩ := addSong_read l0 l1 f.2 mds f.1 ho ha
-        obtain ⟨rs1, qs, inv1, hnd1, x1, hp, hf⟩ := foldDblk_step rd.sdata rd.seq.length rd.pcmd rd.chunks _ a rs0 inv0 hnd0
-          (hD11 f (List.mem_cons_self ..) rd hrd) hfold
+        obtain ⟨rs1, qs, inv1, hnd1, x1, hp, hf⟩ := foldDblk_step rd.sdata rd.seq.length rd.pcmd rd.chunks _ a rs0 inv0 hnd0 hfold
         simp only [List.nil_append] at hp
         have e1 : l1.dataBank = a.bank := by rw [hl1]
         have e2 : l1.wave = a.wave := by rw [hl1]
         have e3 : l1.seqBank = seqInsert l0.seqBank (groupKey rd.group) { filename := f.1, data := rd.seq, patch := a.patch } := by rw [hl1]
-        obtain ⟨tr, rs, inv, hnd, x2, htr, hbank⟩ := ih l1 rs1 (by rw [e2]; exact inv1) (by rw [e1]; exact hnd1)
-          (fun g hg => hD11 g (List.mem_cons_of_mem _ hg)) h
+        obtain ⟨tr, rs, inv, hnd, x2, htr, hbank⟩ := ih l1 rs1 (by rw [e2]; exact inv1) (by rw [e1]; exact hnd1) h
         rw [e1, e2] at x2
         refine ⟨(groupKey rd.group, { filename := f.1, data := rd.seq, patch := a.patch }) :: tr, rs, inv, hnd, x1.trans x2, ?_, ?_⟩
         · refine .cons ⟨rfl, rd, hrd, rfl, rfl, ?_⟩ htr
@@ -483,18 +480,6 @@ theorem all2_of_map_eq {α β : Type} (f : α → Option β) (as : List α) (bs 
       simp only [List.map_cons, List.cons.injEq] at h
       exact .cons h.1 (ih bs h.2)
 
-theorem fileStart0_of_parse (f : Bytes) (s : SongIn) (h : parseMds f = some s) (h0 : ∀ sl ∈ s.slots, sl.start = 0) : FileStart0 f := by
-  intro rd hrd cr hcr
-  obtain ⟨rd', r1, _, _, r4, _⟩ := readSong_of_parseMds f s h
-  rw [hrd] at r1
-  have e : rd = rd' := Option.some.inj r1
-  subst e
-  have hm : toSlot rd.pcmd cr ∈ s.slots := by rw [← r4]; exact List.mem_map_of_mem hcr
-  have := h0 _ hm
-  cases cr with
-  | data addr flag bytes => trivial
-  | pcm addr hdr bytes => exact this
-
 theorem mapM'_enum {α β γ : Type} (P : α → β → Prop) (f : Nat × α → Except String γ) (all : List β)
     (xs : List α) (ys : List β) (n : Nat) (h : All2 P xs ys) (hy : ∀ i, ys[i]? = all[n + i]?)
     (g : ∀ i a b, all[i]? = some b → P a b → ∃ r, f (i, a) = .ok r) :
@@ -518,17 +503,12 @@ def Paired (l : Linker) (s : SongIn) (sd : SeqData) : Prop :=
 theorem songs_in_order (m bk : Nat) (hm : 0 < m) (hm24 : m < 16777216) (hb : bk < 1073741824)
     (files : List (Bytes × Bytes)) (songs : List SongIn) (l : Linker) (bank : Bytes)
     (hparse : files.map (fun f => parseMds f.2) = songs.map some)
-    (hstart : ∀ s ∈ songs, ∀ sl ∈ s.slots, sl.start = 0)
     (hrun : runOps (files.map fun f => Op.add f.1 f.2) (Linker.fresh m bk) = .ok l)
     (hseq : getSeqData l = .ok bank) :
     All2 (Paired l) (ordered songs) l.songs ∧ l.dataBank.Nodup := by
   have hfs := all2_of_map_eq (fun f : Bytes × Bytes => parseMds f.2) files songs hparse
-  have hD11 : ∀ f ∈ files, FileStart0 f.2 := by
-    intro f hf
-    obtain ⟨s, hs, hp⟩ := hfs.mem_left f hf
-    exact fileStart0_of_parse f.2 s hp (hstart s hs)
   obtain ⟨tr, rs, inv, hnd, x, htr, hbank⟩ := runOps_trace files (Linker.fresh m bk) l []
-    (Wave.inv_new m bk hm (by omega) hb) (by simp [Linker.fresh]) hD11 hrun
+    (Wave.inv_new m bk hm (by omega) hb) (by simp [Linker.fresh]) hrun
   have hmax : l.wave.maxSize < 16777216 := by rw [x.same.1]; exact hm24
   have hlen := laid_bank_small (getSeqData_laid l bank hseq) hnd
   -- the group map is the sorted key list with the songs of each key
@@ -552,11 +532,7 @@ theorem songs_in_order (m bk : Nat) (hm : 0 < m) (hm24 : m < 16777216) (hb : bk 
   rw [← r4]
   refine hres.map_right (toSlot rd.pcmd) ?_
   intro q c hc hr
-  apply served_of_serves l hlen rd q c hc (serves_of_resolves l rs inv hmax q c hr)
-  have := hD11 f hf rd hrd c hc
-  cases c with
-  | data addr flag bytes => rfl
-  | pcm addr hdr bytes => exact this
+  exact served_of_serves l hlen rd q c hc (serves_of_resolves l rs inv hmax q c hr)
 
 theorem groupKey_ok (g : Bytes) : KeyOk (groupKey g) ∧ groupKey g ≠ [] := by
   unfold groupKey
@@ -573,18 +549,13 @@ theorem groupKey_ok (g : Bytes) : KeyOk (groupKey g) ∧ groupKey g ≠ [] := by
 theorem seqBank_groups (m bk : Nat) (hm : 0 < m) (hb : bk < 1073741824) (hm2 : m < 1073741824)
     (files : List (Bytes × Bytes)) (songs : List SongIn) (l : Linker)
     (hparse : files.map (fun f => parseMds f.2) = songs.map some)
-    (hstart : ∀ s ∈ songs, ∀ sl ∈ s.slots, sl.start = 0)
     (hrun : runOps (files.map fun f => Op.add f.1 f.2) (Linker.fresh m bk) = .ok l) :
     l.seqBank.map (fun p => (p.1, p.2.length)) =
       (groupKeys songs).map (fun k => (k, (songs.filter fun s => groupOf s.group == k).length)) ∧
     (∀ p ∈ l.seqBank, KeyOk p.1 ∧ p.1 ≠ [] ∧ p.2 ≠ []) := by
   have hfs := all2_of_map_eq (fun f : Bytes × Bytes => parseMds f.2) files songs hparse
-  have hD11 : ∀ f ∈ files, FileStart0 f.2 := by
-    intro f hf
-    obtain ⟨s, hs, hp⟩ := hfs.mem_left f hf
-    exact fileStart0_of_parse f.2 s hp (hstart s hs)
   obtain ⟨tr, rs, inv, hnd, x, htr, hbank⟩ := runOps_trace files (Linker.fresh m bk) l []
-    (Wave.inv_new m bk hm hm2 hb) (by simp [Linker.fresh]) hD11 hrun
+    (Wave.inv_new m bk hm hm2 hb) (by simp [Linker.fresh]) hrun
   have hb0 := bank_fold tr [] [] (by simp [Sorted]) (by intro k _; simp [valsOf])
   simp only [List.map_nil, List.nil_append] at hb0
   have hsb : l.seqBank = (tr.foldl (fun acc kv => insertKey kv.1 acc) []).map (fun k => (k, valsOf tr k)) := by
@@ -633,12 +604,11 @@ theorem seqBank_groups (m bk : Nat) (hm : 0 < m) (hb : bk < 1073741824) (hm2 : m
 theorem resolver_songs (m bk : Nat) (hm : 0 < m) (hm24 : m < 16777216) (hb : bk < 1073741824)
     (files : List (Bytes × Bytes)) (songs : List SongIn) (l : Linker) (bank : Bytes)
     (hparse : files.map (fun f => parseMds f.2) = songs.map some)
-    (hstart : ∀ s ∈ songs, ∀ sl ∈ s.slots, sl.start = 0)
     (hrun : runOps (files.map fun f => Op.add f.1 f.2) (Linker.fresh m bk) = .ok l)
     (hseq : getSeqData l = .ok bank) (hbl : bank.length < 4294967296) :
     ∃ rs, mapM' (fun p => songOk bank (getPcmData l) p.1 p.2) (enumFrom 0 (ordered songs)) = .ok rs ∧
       rs.length = (ordered songs).length := by
-  obtain ⟨hall, hnd⟩ := songs_in_order m bk hm hm24 hb files songs l bank hparse hstart hrun hseq
+  obtain ⟨hall, hnd⟩ := songs_in_order m bk hm hm24 hb files songs l bank hparse hrun hseq
   refine mapM'_enum (Paired l) _ l.songs (ordered songs) l.songs 0 hall (fun i => by simp) ?_
   intro i s sd hi ⟨p1, p2, p3, p4, p5⟩
   obtain ⟨o, es, h, _⟩ := songOk_of l bank hseq hnd hbl i sd hi s p1 p2 p3 p4 p5
